@@ -455,7 +455,7 @@ class Lib:
         return le
 
     # ------------------------------------------------------------------ attributes / items
-    def getattr(self, ctx, obj, name, node=None):
+    def getattr(self, ctx, obj, name, node=None, for_call=False):
         I = self.I
         if isinstance(obj, Ref):
             heap = I.state.heap[obj.oid]
@@ -483,15 +483,22 @@ class Lib:
         if isinstance(obj, Builtin):
             return Builtin(obj.name + '.' + name, None)
         m = I.models.get('attr.' + name)
-        if m is not None:
+        if m is not None and not for_call:
             r = m(ctx, obj)
             if r is not NotImplemented:
                 return r
+        if isinstance(obj, Opaque) and not for_call:
+            m = I.models.get('opaque.getattr')
+            if m is not None:
+                return m(ctx, obj, name)
         return BoundMethod(obj, name, node.value if node is not None else None)
 
     def setattr(self, ctx, obj, name, v):
         if isinstance(obj, Ref):
             self.I.state.heap[obj.oid][name] = v
+            m = self.I.models.get('ref.setattr.hook')
+            if m is not None:
+                m(ctx, obj, name, v)
             return
         raise OutOfSubset("attribute assignment on %r" % (obj,))
 
@@ -784,6 +791,10 @@ class Lib:
                 r = m(ctx, recv, args, kwargs, f)
                 if r is not NotImplemented:
                     return r
+            if isinstance(recv, Opaque):
+                m = I.models.get('opaque.method')
+                if m is not None:
+                    return m(ctx, recv, f.name, args, kwargs, f)
             meth = getattr(self, 'meth_' + f.name, None)
             if meth is not None:
                 return meth(ctx, recv, args, kwargs, f)
